@@ -480,7 +480,7 @@ CHECKS['C11']['jobs'][-1]['quick']['bounds'] = CHECKS['C11']['jobs'][-1]['quick'
 CHECKS['C08']['jobs'].append(dict(name='longnames', harness='c08_buildlog.cc', units=_C08_UNITS, defines=['MODE_LONGNAMES'], reach=['reloaded', 'appended', 'recompacted', 'restatted'], limits=dict(max_steps=200000000, time=1500),
     bounds='three statements whose output names are L, 3 and L+1 bytes long, L from 60 lengths between 1 and 65537 clustered around 256, 512, 1024, 2048, 4096; written by the real writer (one output recorded twice), reloaded, then {reload, append, recompact, restat} and reloaded again'))
 CHECKS['C09']['jobs'].append(dict(name='older_mtime', harness='c09_depslog.cc', units=_C09_UNITS, defines=['DAMAGE_TEAR', 'CONCRETE_SEQ', 'SEQ_BASE=3', 'VERIF_SEQS=1', 'VERIF_MAXREC=4'], reach=['tear-none', 'tear-some', 'recompact-2', 'recompact-3', 'done'],
-    bounds='1 sequence x 1..4 records in which an output is recorded again with the same dependencies and an older mtime (and once more unchanged); torn at every byte offset, 4 choices of appended record, recompaction never / in session 2 / in session 3'))
+    bounds='1 sequence x 1..4 records in which an output is recorded again with the same dependencies and an older mtime (and once more unchanged), another with mtime 0 (its command did not create it); torn at every byte offset, 4 choices of appended record, recompaction never / in session 2 / in session 3'))
 CHECKS['C20']['jobs'] += _real_runner(_mode_jobs('MODE_STATUS', [5], extra=['LONG_OUTPUT'], suffix='_long', reach=('success', 'output-shown'), bounds='one invocation from the empty tree, -j in {1,2,3}, each command prints or not; what a command prints is longer (4.2 KiB) than one read from its pipe, or short; written in two parts or all at once when it exits; every completion order'))
 for _j in CHECKS['C06']['jobs']:
     if _j['name'] == 'pools_procs': _j['reach'] = list(_j['reach']) + ['coalesced-sigchld']; _j['quick'] = dict(_j['quick'], bounds=_j['quick']['bounds'] + '; two commands may exit before the SIGCHLD handler runs once'); _j['thorough'] = dict(_j['thorough'], bounds=_j['thorough']['bounds'] + '; two commands may exit before the SIGCHLD handler runs once')
